@@ -357,11 +357,17 @@ def ternShape : List Level → Bool
 def Ladder.WF (L : Ladder) : Bool :=
   decide (allOps L.levels).Nodup && L.levels.all (fun lv => lv.ops.all entryOK) && ternShape L.levels
 
+/-- skipDecl is only entered at a name directly behind `(`; it must not jump -/
+def declHead (ts : List Tok) : Bool :=
+  match ts with
+  | t :: _ => !t.isName || skipDeclGo ts 0 == some 0
+  | [] => true
+
 /-- no parenthesis is followed by something skipDecl takes for a declaration (`( a * b =`, `( a * b (` …) -/
 def PExpr.declOK : PExpr → Bool
   | .var _ => true
   | .num _ => true
-  | .paren e => declOK e && skipDeclGo (e.print ++ [Tok.rp]) 0 == some 0
+  | .paren e => declOK e && declHead (e.print ++ [Tok.rp])
   | .bin _ l r => declOK l && declOK r
   | .tern c t e => declOK c && declOK t && declOK e
   | .pre _ e => declOK e
@@ -370,7 +376,7 @@ def PExpr.declOK : PExpr → Bool
   | .index a i => declOK a && declOK i
   | .member a _ => declOK a
   | .call0 _ _ => true
-  | .call _ _ a => declOK a && skipDeclGo (a.print ++ [Tok.rp]) 0 == some 0
+  | .call _ _ a => declOK a && declHead (a.print ++ [Tok.rp])
 
 /-- what may follow a complete expression: nothing, `)`, `]` or `;` -/
 def endOK : List Tok → Bool
@@ -440,6 +446,7 @@ def over (L : Ladder) : PExpr → Bool
      | some (lv, _) => (match lookupOp op lv.ops with | some g => g.binary | none => false)
      | none => false) && over L l && over L r
   | tern c t e => (findTern L.levels).isSome && over L c && over L t && over L e
+  | pre op e => plainPrefix op && over L e
   | _ => false
 
 /-- print with the fewest parentheses: an operand gets parentheses exactly when its operator does not belong to
@@ -462,6 +469,7 @@ def minParen (L : Ladder) : List Level → PExpr → PExpr
     | some (lv, below) =>
       let body := tern (minParen L below c) (minParen L L.levels t) (minParen L (lv :: below) e)
       if (findTern ls).isSome then body else paren body
+  | _, pre op e => pre op (minParen L [] e)
   | _, e => e
 
 end PExpr
